@@ -120,20 +120,8 @@ theorem close_wakes_stale_select_waiter :
 
 example : (run Cfg.good (World.start fun _ => 0) staleCloseActs).ghost.received = [(1, 2001)] := by decide
 
-/-! ## obligations on the current source -/
-
-/-- `no_lost_wakeup`, proved part: on the three witness schedules the CURRENT source (configuration from Gen/Ev.lean)
-    neither strands a fiber nor drops a task.  Fails to check on a tree that lacks any of the three tests.
-    NOT proved: the invariant for all action sequences (a suspended fiber always has a task, timer or live registration
-    carrying its current sched_id; a live pending reader implies `items = []`; #live pending writers ≤ count - limit)
-    and its corollary `terminates_when_matchable`.  Both are checked on every explored implementation state by the
-    direct oracle (failure kinds `lost-wakeup`, `waiting-reader-with-items`, `reader-and-writer-both-waiting`). -/
-theorem no_lost_wakeup_partial :
-    lostWakeup (run currentCfg (World.start fun _ => 0) hangActs) 0 1 = false
-    ∧ (run currentCfg (World.start fun _ => 0) staleWriterActs).ghost.dropped = []
-    ∧ (run currentCfg (World.start fun _ => 0) staleCloseActs).ghost.dropped = [] := by decide
-
-/-- the current source has every test the model knows about, with the reference operators -/
-theorem current_source_checks : currentCfg = Cfg.good := by decide
+/-! The obligations on the current source (`no_lost_wakeup_partial`, `current_source_checks`) are in
+    `JanetModel/Ev/SourceObligations.lean` (same namespace): they fail to check on a tree that lacks one of the three
+    tests, and are kept in a module of their own so that the theorems above are still checked on such a tree. -/
 
 end JanetModel.Props.C06
